@@ -1,38 +1,20 @@
-"""Job tables of the vf driver: which test binaries/tests decide which property, at which size."""
+"""Job tables of the vf driver: one module conf/cNN.py per property, each defining PROP (a dict).
 
-CURVES = ["bn254", "bls12-377", "bls12-381", "bls24-315", "bls24-317", "bw6-633", "bw6-761",
-          "secp256k1", "stark-curve", "grumpkin"]
-PAIRING = CURVES[:7]
-FIELDS = [c + "/" + f for c in CURVES for f in ("fp", "fr")] + ["goldilocks", "koalabear", "babybear"]
+PROP keys: rule, assumptions, technique, level_text, level_note, [level], [mandatory_all], jobs=[...]
+job keys:  name, pkg (harness package dir, or /repo package path when kind="overlay"), run (test regex),
+           [kind="harness"|"overlay"], [tags], [race], [rapid=True], [shards=[inst names | {name,inst,env}]],
+           [checks=(quick,thorough)], [seeds=(q,t) number of PRNG shards], [timeout=(q,t) seconds], [tiers],
+           [env], [extra], [weight], [shrinktime]
+"""
+import glob, importlib, os
+
+from conf.common import *  # noqa
 
 PROPS = {}
-
-PROPS["C01"] = dict(
-    rule=("rapid-generated (op, operand tuple) per field from the two-domain boundary lattice; a case is "
-          "non-trivial when an operand or the exact result (canonical or Montgomery form) has a limb in "
-          "{0, 2^w-1, limb of q} or lies within 2 of 0/q, the unreduced sum/difference is within 1 of q/0, "
-          "an exponent is outside [2,q-2], or a vector length is 0, not a multiple of 16, or >= 112; "
-          "distinct = distinct (field, op, operands) hashes"),
-    assumptions=["reference = math/big modular arithmetic (harness/internal/ref, no gnark-crypto code)",
-                 "operands are reduced elements (constructed through SetBigInt of a reduced value)",
-                 "amd64 host with ADX and AVX-512; other code paths are decided by C09"],
-    jobs=[
-        dict(name="unary", pkg="c01", run="^TestC01_Unary$", shards=FIELDS, checks=(4000, 60000)),
-        dict(name="binary", pkg="c01", run="^TestC01_Binary$", shards=FIELDS, checks=(4000, 60000)),
-        dict(name="vector", pkg="c01", run="^TestC01_Vector$", shards=FIELDS, checks=(700, 10000)),
-        dict(name="regress", pkg="c01", run="^TestC01_Regress$", rapid=False),
-    ],
-)
-
-PROPS["C01"].update(
-    technique="property-based testing (rapid) against a math/big reference model, boundary-lattice generators, all 23 fields",
-    level_text=("Generated-input search: every arithmetic entry point of all 23 fields is compared with an independent "
-                "math/big model on operands drawn from a two-domain (canonical and Montgomery) limb-boundary lattice, and "
-                "every result is checked for canonical representation. Exploration, not proof: the right level for a "
-                "property quantified over 2^254..2^761-element input spaces whose failures cluster on carry/borrow boundaries "
-                "that the lattice constructs."),
-    level_note="trusts math/big and the harness adapters; arm64 assembly not executed (amd64 host)",
-)
+for _f in sorted(glob.glob(os.path.join(os.path.dirname(os.path.abspath(__file__)), "conf", "c[0-9][0-9].py"))):
+    _n = os.path.basename(_f)[:-3]
+    _m = importlib.import_module("conf." + _n)
+    PROPS[_n.upper()] = _m.PROP
 
 MANIFEST_BASE = dict(
     version=1,
